@@ -45,7 +45,7 @@ func checkFloat(c FloatCase) (pbt.Info, error) {
 	var info pbt.Info
 	h := all.New[float64](c.Cfg)
 	for _, op := range c.Ops {
-		if op.O == "load" {
+		if op.O == "load" || op.O == "badload" {
 			continue // NaN and the infinities have no JSON form
 		}
 		script.Apply(h, nanDomain, op)
